@@ -266,3 +266,25 @@ func VHC18Two() {
 	vh.Assert(k == OK, "C18: two well-formed directives must not fail")
 	vh.Assert(out == "["+pad(r1, f1, w1)+"]["+pad(r2, f2, w2)+"]", "C18: each directive is padded by its own flag and width: "+format)
 }
+
+// VHC18Atomic: a printf that fails writes nothing, however much output the directives
+// before the failing one have already produced (wide paddings, long literals, long
+// arguments) and whatever the kind of failure.
+func VHC18Atomic() {
+	s1 := vh.Bytes("s1", 1)
+	long := strings.Repeat("0123456789", 900)
+	doc := map[string]any{"a": s1, "n": 2.5, "long": long}
+	heads := []string{"%3s", "%9000s", "%-8192s", "%65536v", "%09000v", "%s%s|" + long[:500]}
+	args := []string{"$.a", "$.a", "$.a", "$.a", "$.a", "$.long, $.long"}
+	faults := []string{"%s", "%q", "%", "%5", "%-", "%f", "%70000s"}
+	fargs := []string{"", ", 1", "", "", "", ", $.a", ", $.a"}
+	h := vh.Choose("head", len(heads))
+	f := vh.Choose("fault", len(faults))
+	_, k, out := evalExpr("printf('"+heads[h]+"|"+faults[f]+"', "+args[h]+fargs[f]+")", doc)
+	vh.Reach("failing printf evaluated")
+	vh.Assert(k == ErrRuntime, "C18: the failing directive makes the printf a runtime error: "+heads[h][:3]+" "+faults[f])
+	vh.Assert(out == "", "C18: a failing printf writes nothing, whatever was formatted before the failure: "+heads[h][:3]+" "+faults[f])
+	// and the same format without the failing part writes it all at once
+	_, k2, out2 := evalExpr("printf('"+heads[h]+"|', "+args[h]+")", doc)
+	vh.Assert(k2 == OK && len(out2) > 3, "C18: without the failing directive the printf succeeds")
+}
